@@ -17,6 +17,10 @@
 //   "differs" otherwise.  Hints for the class key:
 //   \t#HINT:reserved-funsym   some FunctionSymbol named add / mul / pow occurs in es
 //   \t#HINT:piecewise         some Piecewise occurs in es
+//   \t#HINT:subs-node         some Subs / Derivative node occurs in es (or in an output)
+//   \t#HINT:nan               some NaN occurs in es (or in an output)
+//   backsubst-crash:<sig> / backsubst-hang: cse returned, the library's subs() (or eq / expand) on its
+//   outputs did not (the back field of the section is then CRASH:<sig> / HANG)
 #include <symengine/basic.h>
 #include <symengine/add.h>
 #include <symengine/mul.h>
@@ -86,7 +90,7 @@ static std::string join_dumps(const vec_basic &v)
 }
 
 // one of the two entry points on es; returns "<body>" + oracle annotations (separated by \x01)
-static std::string run_phase(const std::string &tag, const vec_basic &es, bool full)
+static std::string run_phase(const std::string &tag, const vec_basic &es, bool full, bool isolate)
 {
     std::ostringstream o, orc;
     vec_pair reps;
@@ -105,44 +109,69 @@ static std::string run_phase(const std::string &tag, const vec_basic &es, bool f
     for (size_t k = 0; k < reps.size(); k++)
         o << (k ? " ;; " : "") << verif::dump(*reps[k].first) << " => " << verif::dump(*reps[k].second);
     o << " | " << join_dumps(red) << " | ";
-    // the library's own back-substitution, last replacement first
-    vec_basic back;
-    std::string subs_err;
-    try {
-        for (size_t i = 0; i < red.size(); i++) {
-            RCP<const Basic> r = red[i];
-            for (size_t k = reps.size(); k-- > 0;) {
-                map_basic_basic m;
-                m[reps[k].first] = reps[k].second;
-                r = r->subs(m);
-            }
-            back.push_back(r);
-        }
-        o << join_dumps(back);
-    } catch (...) {
-        subs_err = verif::exn_name();
-        o << subs_err;
-    }
     // ---- oracle ----
     if (red.size() != es.size())
         orc << "\t#ORACLE:" << tag << ":shape:" << red.size() << "/" << es.size();
-    if (!subs_err.empty()) {
-        orc << "\t#ORACLE:" << tag << ":unfaithful:subs-throws-" << subs_err;
-    } else {
-        for (size_t i = 0; i < back.size() && i < es.size(); i++)
-            if (!eq(*back[i], *es[i]) or !eq(*es[i], *back[i])) {
-                // not eq as trees; are they at least the same polynomial expression (the
-                // difference expands to 0)?  Then the rebuild only changed the canonical form
-                // (SymEngine's add() is not associative on nested sums with coefficients).
-                std::string how = "differs";
-                try {
-                    if (eq(*expand(sub(back[i], es[i])), *zero))
-                        how = "expand-equal";
-                } catch (...) {
+    // the library's own back-substitution, last replacement first, and its comparison with the
+    // inputs.  cse() / tree_cse() HAVE RETURNED at this point: with isolate this part runs in a child
+    // of its own, so that a crash / hang of the library's subs() (or eq / expand) on the outputs is
+    // told apart from a crash of cse itself: the back field is then CRASH:<sig> / HANG and the
+    // annotation is backsubst-crash / backsubst-hang.
+    auto backpart = [&]() -> std::string {
+        std::ostringstream ob, oo;
+        vec_basic back;
+        std::string subs_err;
+        try {
+            for (size_t i = 0; i < red.size(); i++) {
+                RCP<const Basic> r = red[i];
+                for (size_t k = reps.size(); k-- > 0;) {
+                    map_basic_basic m;
+                    m[reps[k].first] = reps[k].second;
+                    r = r->subs(m);
                 }
-                orc << "\t#ORACLE:" << tag << ":unfaithful:" << how << ":" << i;
-                break;
+                back.push_back(r);
             }
+            ob << join_dumps(back);
+        } catch (...) {
+            subs_err = verif::exn_name();
+            ob << subs_err;
+        }
+        if (!subs_err.empty()) {
+            oo << "\t#ORACLE:" << tag << ":unfaithful:subs-throws-" << subs_err;
+        } else {
+            for (size_t i = 0; i < back.size() && i < es.size(); i++)
+                if (!eq(*back[i], *es[i]) or !eq(*es[i], *back[i])) {
+                    // not eq as trees; are they at least the same polynomial expression (the
+                    // difference expands to 0)?  Then the rebuild only changed the canonical form
+                    // (SymEngine's add() is not associative on nested sums with coefficients).
+                    std::string how = "differs";
+                    try {
+                        if (eq(*expand(sub(back[i], es[i])), *zero))
+                            how = "expand-equal";
+                    } catch (...) {
+                    }
+                    oo << "\t#ORACLE:" << tag << ":unfaithful:" << how << ":" << i;
+                    break;
+                }
+        }
+        return ob.str() + "\x03" + oo.str() + "\x04";
+    };
+    {
+        std::string bp = isolate ? verif::run_forked(backpart, 20) : backpart();
+        size_t p3 = bp.find('\x03');
+        if (bp.empty() or bp[bp.size() - 1] != '\x04' or p3 == std::string::npos) {
+            size_t c = bp.rfind("CRASH:");
+            if (c != std::string::npos) {
+                o << bp.substr(c);
+                orc << "\t#ORACLE:" << tag << ":backsubst-crash:" << bp.substr(c + 6);
+            } else {
+                o << "HANG";
+                orc << "\t#ORACLE:" << tag << ":backsubst-hang";
+            }
+        } else {
+            o << bp.substr(0, p3);
+            orc << bp.substr(p3 + 1, bp.size() - p3 - 2);
+        }
     }
     std::set<std::string> in_names;
     bool d1 = false, d2 = false;
@@ -217,8 +246,8 @@ static std::string run_case(const std::string &line, bool isolate)
     const char *tags[2] = {"C", "T"};
     for (int ph = 0; ph < 2; ph++) {
         std::string tag = tags[ph];
-        std::string r = isolate ? verif::run_forked([&]() { return run_phase(tag, es, ph == 0); }, 20)
-                                : run_phase(tag, es, ph == 0);
+        std::string r = isolate ? verif::run_forked([&]() { return run_phase(tag, es, ph == 0, true); }, 60)
+                                : run_phase(tag, es, ph == 0, false);
         size_t p = r.find('\x01');
         std::string body = p == std::string::npos ? r : r.substr(0, p);
         std::string ann = p == std::string::npos ? "" : r.substr(p + 1);
@@ -247,6 +276,10 @@ static std::string run_case(const std::string &line, bool isolate)
         orc += "\t#HINT:reserved-funsym";
     if (pw)
         orc += "\t#HINT:piecewise";
+    if (out.find("(Subs ") != std::string::npos or out.find("(Deriv ") != std::string::npos)
+        orc += "\t#HINT:subs-node";
+    if (out.find("(NaN)") != std::string::npos)
+        orc += "\t#HINT:nan";
     return out + orc;
 }
 
